@@ -45,6 +45,15 @@ def kf_consts():
     return sw
 
 
+def known_cases(v):
+    """FilterTrace prints a KF_USED line for every deviation action it takes (instead of keeping them in the state)"""
+    import re
+    for payload in v.res.printed.get("KF_USED", []):
+        mm = re.match(r'(-?\d+), "(.*)"$', payload)
+        if mm:
+            v.known.setdefault(int(mm.group(1)), set()).add(mm.group(2))
+
+
 def drive(binp, args, out):
     p = c.run([binp, "--out", out] + args, timeout=3000, check=False)
     if p.returncode != 0:
@@ -64,6 +73,7 @@ def replay(ctx):
         for e in obj["trace"]:
             f.write(json.dumps(e) + "\n")
     v = c.validate_trace(ctx, "replay", "FilterTrace.tla", trace, kf_consts(), timeout=600)
+    known_cases(v)
     for e in obj["trace"]:
         print(json.dumps(e))
     print("rejected:", v.rejected, "known:", v.known)
@@ -99,6 +109,7 @@ def binding_selftest(ctx, cases, v, sw):
             for e in evs:
                 f.write(json.dumps(e) + "\n")
     r = c.validate_trace(ctx, "selftest", "FilterTrace.tla", path, sw, timeout=600)
+    known_cases(r)
     if r.violations != {0, 1, 2}:
         raise c.ToolError("binding self-test failed: corrupted cases 0,1,2 must be rejected and the unchanged ones accepted, got %s" % sorted(r.violations))
     return {"corrupted_rejected": 3, "unchanged_accepted": 2, "base_case": good[0]}
@@ -176,6 +187,7 @@ def check(ctx):
     ctx.add_tlc("trace-validation", v.res)
     if "DOMAIN_ERROR" in v.res.printed:
         raise c.ToolError("driver left the domain of a front-end: %s" % v.res.printed["DOMAIN_ERROR"][0][:600])
+    known_cases(v)
     cases = c.split_cases(trace)
     ctx.evaluations = st.get("events_observed", 0)
     ctx.traces_validated = info["cases_written"] - len(v.violations)
